@@ -99,6 +99,9 @@ def run(res):
     import props.C19 as C19
     for r in fw.run_parallel(C19.scene_case, [dict(seed=res.seed + 6, idx=i, quick=True) for i in range(16 if quick else 160)]):
         res.absorb(r)
+    # ... and a Kang object run a second time (another source first) must equal a fresh object, in every band
+    for r in fw.run_parallel(C19.rerun_case, [dict(seed=res.seed + 9, idx=i) for i in range(4 if quick else 40)]):
+        res.absorb(r)
     res.rule = ("shoebox scenes with 2-6 bands, band-dependent absorption / random tables / attenuation; the "
                 "multi-band run is compared with the model and, band by band (up to 3 bands per scene), with "
                 "single-band objects carrying only that band; non-trivial = the bands actually differ")
